@@ -221,7 +221,7 @@ def q_mult_L(q: np.ndarray) -> np.ndarray:
         Matrix form of the left side quaternion multiplication.
 
     """
-    q /= np.linalg.norm(q)
+    q = q/np.linalg.norm(q)
     Q = np.array([
         [q[0], -q[1], -q[2], -q[3]],
         [q[1],  q[0], -q[3],  q[2]],
@@ -244,7 +244,7 @@ def q_mult_R(q: np.ndarray) -> np.ndarray:
         Matrix form of the right side quaternion multiplication.
 
     """
-    q /= np.linalg.norm(q)
+    q = q/np.linalg.norm(q)
     Q = np.array([
         [q[0], -q[1], -q[2], -q[3]],
         [q[1],  q[0],  q[3], -q[2]],
@@ -310,7 +310,7 @@ def axang2quat(axis: np.ndarray, angle: Union[int, float], rad: bool = True) -> 
         return np.array([1.0, 0.0, 0.0, 0.0])
     if len(axis) != 3:
         raise ValueError()
-    axis /= np.linalg.norm(axis)
+    axis = axis/np.linalg.norm(axis)
     qw = np.cos(angle/2.0) if rad else cosd(angle/2.0)
     s = np.sin(angle/2.0) if rad else sind(angle/2.0)
     q = np.array([qw] + list(s*axis))
@@ -342,7 +342,7 @@ def quat2axang(q: np.ndarray) -> Tuple[np.ndarray, float]:
     if len(q) != 4:
         raise ValueError(f"The quaternion must be a 4-element array, not {len(q)}-element array.")
     # Normalize input quaternion
-    q /= np.linalg.norm(q)
+    q = q/np.linalg.norm(q)
     axis = np.copy(q[1:])
     denom = np.linalg.norm(axis)
     angle = 2.0*np.arctan2(denom, q[0])
@@ -450,7 +450,7 @@ def q2R(q: np.ndarray, version: int = 1) -> np.ndarray:
         raise ValueError("Version must be an int equal to 1 or 2.")
     if q.ndim > 1:
         # Convert multiple quaternions
-        q /= np.linalg.norm(q, axis=1)[:, None]     # Normalize all quaternions
+        q = q/np.linalg.norm(q, axis=1)[:, None]    # Normalize all quaternions
         R = np.zeros((q.shape[0], 3, 3))
         if version == 1:
             R[:, 0, 0] = 1.0 - 2.0*(q[:, 2]**2 + q[:, 3]**2)
@@ -468,7 +468,7 @@ def q2R(q: np.ndarray, version: int = 1) -> np.ndarray:
         R[:, 1, 2] = 2.0*(q[:, 2]*q[:, 3]-q[:, 0]*q[:, 1])
         return R
     # Convert single quaternion
-    q /= np.linalg.norm(q)
+    q = q/np.linalg.norm(q)
     if version == 1:
         return np.array([
             [1.0-2.0*(q[2]**2+q[3]**2), 2.0*(q[1]*q[2]-q[0]*q[3]), 2.0*(q[1]*q[3]+q[0]*q[2])],
@@ -567,7 +567,7 @@ def rpy2q(angles: np.ndarray, in_deg: bool = False) -> np.ndarray:
     if angles.shape[-1] != 3:
         raise ValueError("Input angles must be an array with three elements.")
     if in_deg:
-        angles *= DEG2RAD
+        angles = angles*DEG2RAD
     if angles.ndim < 2:
         roll, pitch, yaw = angles
     else:
@@ -861,8 +861,8 @@ def am2angles(a: np.ndarray, m: np.ndarray, in_deg: bool = False) -> np.ndarray:
     if m.ndim < 2:
         m = np.atleast_2d(m)
     # Normalization of 2D arrays
-    a /= np.linalg.norm(a, axis=1)[:, None]
-    m /= np.linalg.norm(m, axis=1)[:, None]
+    a = a/np.linalg.norm(a, axis=1)[:, None]
+    m = m/np.linalg.norm(m, axis=1)[:, None]
     angles = np.zeros((len(a), 3))   # Allocation of angles array
     # Estimate tilt angles
     angles[:, 0] = np.arctan2(a[:, 1], a[:, 2])
@@ -910,7 +910,7 @@ def slerp(q0: np.ndarray, q1: np.ndarray, t_array: np.ndarray, threshold: float 
     qdot = q0@q1
     # Ensure SLERP takes the shortest path
     if qdot < 0.0:
-        q1 *= -1.0
+        q1 = -1.0*q1
         qdot *= -1.0
     # Interpolate linearly (LERP)
     if qdot > threshold:
